@@ -73,7 +73,13 @@ varintWidth varintPFORComputeThreshold(const uint64_t *values, uint32_t count,
     /* Calculate range and required width */
     uint64_t range = thresholdValue - min;
     varintWidth width;
-    varintExternalUnsignedEncoding(range, width);
+    /* Size the slots for range + 1 so the all-ones exception marker can never
+     * equal the offset of a regular (non-exception) value. */
+    if (range < UINT64_MAX) {
+        varintExternalUnsignedEncoding(range + 1, width);
+    } else {
+        width = VARINT_WIDTH_64B;
+    }
 
     /* Calculate exception marker */
     uint64_t marker = varintPFORCalculateMarker(width);
